@@ -8,7 +8,7 @@
    (http.DetectContentType); [c], [s] are ANY client configuration / request state. *)
 From ReqV Require Import Lib.Bytes Model.Retry Model.RetryUpload
   Proofs.RetryProofs Proofs.RetryLoopProofs Proofs.RetryRunProofs Proofs.RetryOptProofs
-  Proofs.RetryUploadProofs.
+  Proofs.RetryUploadProofs Model.RetrySlices Gen.RetryClone Proofs.RetrySlicesProofs Proofs.RetryCloneTie.
 
 (* ---------- bounded ---------- *)
 
@@ -358,6 +358,45 @@ Theorem C10_client_count_inherited : forall cops rops n post,
   exists o, effective_ropt (cops ++ SetCount n :: post) rops = Some o /\ ro_max o = n.
 Proof. exact client_count_inherited. Qed.
 Print Assumptions C10_client_count_inherited.
+
+(* ---------- several requests of one client ---------- *)
+
+(* the storage of conditions / hooks (Model/RetrySlices.v: backing arrays, len, cap; append in
+   place when there is spare capacity; retryOption.Clone as gosync reads it off the source):
+   for every sequence of Set/Add calls on the client and on any number of requests built from
+   it, in any interleaving, and for every growth policy of append, every option holds exactly
+   the list its own caller built - a request is retried by its own conditions and runs its
+   own hooks, whatever other requests of the same client were given *)
+Theorem C10_request_conditions_independent : forall grow ops,
+  views (wrun grow clone_conditions ops world0) = prun ops [[]].
+Proof. exact request_conditions_independent. Qed.
+Print Assumptions C10_request_conditions_independent.
+
+Theorem C10_request_hooks_independent : forall grow ops,
+  views (wrun grow clone_hooks ops world0) = prun ops [[]].
+Proof. exact request_hooks_independent. Qed.
+Print Assumptions C10_request_hooks_independent.
+
+(* in the caller's terms: a setter call on one slot leaves every other slot's list alone *)
+Theorem C10_foreign_setter_is_invisible : forall p k j x,
+  j <> k -> nth j (pstep p (SAdd k x)) [] = nth j p [] /\ nth j (pstep p (SSet k x)) [] = nth j p [].
+Proof. exact foreign_setter_is_invisible. Qed.
+Print Assumptions C10_foreign_setter_is_invisible.
+
+(* the source is as modelled: deep Clone of both slices, R() clones, setters literal / append *)
+Theorem C10_clone_is_deep :
+  clone_conditions = CloneDeep /\ clone_hooks = CloneDeep /\ r_clones_option = true.
+Proof. exact clone_is_deep. Qed.
+Print Assumptions C10_clone_is_deep.
+
+(* a shallow Clone (o := *ro) does not have the property: three client conditions (len 3,
+   cap 4), two requests that each add one - the first request ends up with the second's *)
+Theorem C10_shallow_clone_refuted :
+  views (wrun go_grow CloneShallow shallow_witness world0) = [[1; 2; 3]; [1; 2; 3; 20]; [1; 2; 3; 20]]%Z /\
+  prun shallow_witness [[]] = [[1; 2; 3]; [1; 2; 3; 10]; [1; 2; 3; 20]]%Z /\
+  views (wrun go_grow CloneDeep shallow_witness world0) = [[1; 2; 3]; [1; 2; 3; 10]; [1; 2; 3; 20]]%Z.
+Proof. exact shallow_clone_refuted. Qed.
+Print Assumptions C10_shallow_clone_refuted.
 
 (* ---------- non-vacuity ---------- *)
 
